@@ -147,6 +147,32 @@ theorem subperm_of_toIntLoop_ok (p pool : List ℕ) (a m v : ℕ) (h : toIntLoop
       exact h2.trans h3.subperm
     · simp [toIntLoop, hx] at h
 
+/-- `from_int` only depends on `i mod k!` (python ints: negative or large `i` wrap around) -/
+theorem fromIntAux_add_mul (k : ℕ) (i t : ℤ) (pool : List ℕ) :
+    fromIntAux k (i + (fact k : ℤ) * t) pool = fromIntAux k i pool := by
+  induction k generalizing i t pool with
+  | zero => rfl
+  | succ k ih =>
+    rw [fromIntAux_succ, fromIntAux_succ]
+    have hne : ((k + 1 : ℕ) : ℤ) ≠ 0 := by omega
+    have e : i + ((fact (k + 1) : ℕ) : ℤ) * t = i + ((k + 1 : ℕ) : ℤ) * ((fact k : ℤ) * t) := by
+      rw [fact_succ]; push_cast; ring
+    rw [e, Int.add_mul_emod_self_left, Int.add_mul_ediv_left _ _ hne, ih]
+
+theorem fromInt_emod (i : ℤ) (n : ℕ) : fromInt (i % (fact n : ℤ)) n = fromInt i n := by
+  unfold fromInt
+  conv_rhs => rw [← Int.emod_add_mul_ediv i (fact n : ℤ)]
+  rw [fromIntAux_add_mul]
+
+/-- the only exception `to_int` can raise is ValueError -/
+theorem toIntLoop_error (p pool : List ℕ) (a m : ℕ) (e : Err) (h : toIntLoop pool a m p = .error e) : e = .value := by
+  induction p generalizing pool a m with
+  | nil => simp [toIntLoop] at h
+  | cons x rest ih =>
+    by_cases hx : x ∈ pool
+    · rw [toIntLoop_cons _ _ _ _ _ hx] at h; exact ih _ _ _ h
+    · simp [toIntLoop, hx] at h; exact h.symm
+
 /-! ### the statements about `fromInt`, `toInt`, `group` -/
 
 theorem toInt_fromInt (n i : ℕ) (h : i < fact n) : toInt (fromInt (i : ℤ) n) = .ok i := by
